@@ -88,14 +88,18 @@ def run(tier, seed):
     obs += envelope.guard_moments("C04", "Moments4", ["mean"] + [["central_moment", p] for p in range(2, 5)] + [["standardized_moment", p] for p in (3, 4)],
                                   "define_moments!(_, 4) = average::Moments4 (add-only histories)")
     obs += vl.run_lemmas("C04", ["lemma_fold", "swap", "realizable", "bridge"])
+    # the binomial-coefficient iterator shared by add and merge of every order: extracted and verified by Verus for EVERY n
+    import verus_units
+    obs += verus_units.iterbinomial_obligations("C04")
     meta = {
         "level": "proof",
         "checker_cmd": "./check C04 (rsx expand define_moments_common! -> RS executor -> sympy / z3 QF_NRA; verus history.rs)",
         "functions_under_contract": ["define_moments!(_, %d): new, default, add, len, is_empty, mean, central_moment(p<=%d), standardized_moment(p<=%d), IterBinomial::{new,next}" % (N, N, N) for N in orders],
         "source_files": ["src/moments/mod.rs"],
         "extraction": EXTRACTION + "; the single arm of define_moments_common! / define_moments_inner! is instantiated by token substitution ($name, $MAX_MOMENT, $crate) and parsed as a file",
-        "trusted_base": ["rsx + RS executor (own code)", "sympy polynomial arithmetic", "z3 5.1 nlsat", "Verus (history lemma)"],
-        "assumptions": [A_REAL, A_INT, A_LIB, A_REALIZABLE, "A-LIB: num_traits::pow(x, k) = repeated product",
+        "trusted_base": ["Verus 0.2026.09.13 / z3 on the mechanically extracted IterBinomial (contracts/verus/iterbinomial.rs.tmpl: struct re-printed from the AST; `pub`, `#[inline]`, the `impl Iterator for` header and `type Item` dropped; `-> T` written `-> (r: T)`; a ghost proof block after the opening brace of next; bodies verbatim)", "rsx + RS executor (own code)", "sympy polynomial arithmetic", "z3 5.1 nlsat", "Verus (history lemma)"],
+        "assumptions": ["IterBinomial (Verus, all n): next() yields C(n, k) under the precondition that k*C(n,k) fits u64 (true for every order up to 62); machine integers are u64 in the proof, not mathematical",
+                        A_REAL, A_INT, A_LIB, A_REALIZABLE, "A-LIB: num_traits::pow(x, k) = repeated product",
                         "configurations: orders N in %s, every p <= N (loops unrolled: bounds are the macro parameter; complete per N); other N are not covered by this run" % orders,
                         "agreement with Mean/Variance/Skewness/Kurtosis: both sides are proved equal to the same textbook terms of the shared summary (C01/C03)",
                         "the forward-error envelope is exercised only by a BOUNDED known-answer corpus (envelope_guard)",
@@ -103,4 +107,5 @@ def run(tier, seed):
         "explanation": "Pebay-style single-observation update proved against M_p of the enlarged summary for p = 2..N; accessors against M_p/n and (M_p/n)/sigma^p; the documented assert_ne!(variance, 0) is the only allowed panic.",
     }
     from confirm_rs import confirm_moment
-    return obs, meta, lambda ob: envelope.confirm_from_cex(ob) or confirm_moment(ob, TYPE_MAP)
+    import verus_units
+    return obs, meta, lambda ob: verus_units.confirm(ob, "C04") or envelope.confirm_from_cex(ob) or confirm_moment(ob, TYPE_MAP)
